@@ -13,6 +13,31 @@ CHECKS = {
             "Every call of the real codec made by the workload is judged by an independent reference codec: all values and byte patterns of the 8/16-bit types exhaustively, boundary and seeded random values of wider types, out-of-range values, wrong-length byte strings 0..9, REAL specials, ASCII/BMP strings. Held = no call disagreed with the reference on the inputs listed in the evidence.",
             "Trusted: Python int.to_bytes/from_bytes and struct (IEEE 754) as reference; inputs beyond those generated are not covered.",
             "DESIGN.md section 4, C04"),
+    "C01": ("exploration",
+            "real SdoClient against a strict reference SDO server on a simulated bus: client-side wire monitor (every request frame validated for its protocol step) + store/returned-bytes comparison over generated transfers",
+            "Every client frame of every generated transfer (lengths 0..64 exhaustive, boundary lengths up to 70000, declared/undeclared size, forced segmentation, 5 buffering modes, 5 chunkings, 6 server response styles, boundary and random multiplexers, shuffled back-to-back history on one client) is validated by an independent CiA 301 server model, and the committed / returned bytes are compared with the payload. Held = no illegal frame and no byte difference in the transfers listed in the evidence.",
+            "Trusted: the reference server's transcription of CiA 301 7.2.4; inline delivery (no timing); expedited writes are offered whole values (API design).",
+            "DESIGN.md section 4, C01"),
+    "C05": ("exploration",
+            "runtime contracts with OLD-frame snapshot on PdoVariable.get_data/set_data judged by an independent bit-field model, plus typed read-back at the API; generated layouts forcing every bit offset x type",
+            "Every read and write of a mapped variable performed by the workload (all 64 bit offsets x every integer type, BOOLEAN, REAL32/64, sub-byte fields, all 2^len values for short fields, three initial frame contents) is compared bit for bit with a reference model of the frame as one little-endian integer. Held = no access disagreed.",
+            "Trusted: reference bit arithmetic; layouts beyond those generated are not covered.",
+            "DESIGN.md section 4, C05"),
+    "C07": ("fault_enumeration",
+            "fault plan on the simulated bus: every response frame of every transfer kind x every disturbance kind, outcome classification + abort-on-wire monitor + undisturbed follow-up transfers",
+            "For expedited, segmented and block transfers in both directions (reference server; real SdoServer for expedited/segmented) every response frame is disturbed once by each kind (lost, lost and delivered late, replaced by abort, toggle, specifier, multiplexer, duplicated, stale frames queued / in between / before) and the call must return exactly the right data or raise an SDO communication/abort error, emit the time-out abort after a loss, and leave client and server able to complete a follow-up upload and download.",
+            "Trusted: reference server; stale frames that are legal for the current step (incl. any abort frame) are indistinguishable by protocol and not generated; wall clock only creates the injected time-outs.",
+            "DESIGN.md section 4, C07"),
+    "C12": ("fault_enumeration",
+            "real block-download client against a reference block server with changing block sizes; every single segment loss position, lost acknowledges, multi-loss; store comparison + wire validation + loss classification",
+            "Undisturbed block downloads (lengths 1..64 exhaustive and block/segment boundaries, 8 block-size sequences, CRC on/off, 3 write styles) must commit exactly the payload with conformant sequence numbers, last flag, n and CRC; every single lost segment position of representative transfers must be repaired when the server can detect it, and no disturbed transfer may return normally with a different commit.",
+            "Trusted: reference server without timers (a lost last segment of a sub-block is undetectable for it and falls in the may-fail class).",
+            "DESIGN.md section 4, C12"),
+    "C13": ("fault_enumeration",
+            "real block-upload client against a reference block-upload server; every single lost / bit-flipped / duplicated segment, wrong CRC, wrong or lost end/initiate frames; returned-bytes comparison",
+            "Undisturbed block uploads (lengths 1..64 exhaustive and boundaries, 6 client block sizes, CRC requested/supported or not, 3 read styles) must return exactly the server's value and close the transfer; with CRC negotiated every injected fault must end in an SdoError or in exactly the server's value.",
+            "Trusted: reference server; faults without CRC are recorded as observations only (the property promises nothing there).",
+            "DESIGN.md section 4, C13"),
 }
 
 NOT_BUILT_REASON = "check not built yet in this round (build in progress; see DESIGN.md section 4 for its design)"
